@@ -21,7 +21,7 @@ def is_use_color(e):
     return isinstance(e, ast.Attribute) and e.attr == 'use_color'
 
 
-def run(ctx):
+def _run_base(ctx):
     repo, cg = ctx.repo, ctx.cg
     ctx.rule('R16.1', 'every ANSI source is selected by use_color: colorama only in the col_const[True] row, col_const indexed only by use_color, '
              'syntax highlighting and git --color* flags only on paths where use_color is true', floor=9)
@@ -186,3 +186,10 @@ def _exec_block(ev, stmts):
                 break
         elif isinstance(st, ast.Return):
             return
+
+
+def run(ctx):
+    ctx.rule('R16.5', 'the renderers never test a diff key / path element (line number, list index) by truthiness', floor=1)
+    _run_base(ctx)
+    from ..keys import key_truthiness
+    key_truthiness(ctx, 'R16.5', ['nbdime.prettyprint'], 'rendering a change at index/line 0 takes the wrong branch (the char-level diff of line 0 is applied as a line-level diff and patch() raises)')
